@@ -6,7 +6,8 @@ GEN_DEPS = ["GenBins.v"]
 SHARD = 2500
 RULE = ("exhaustive grid of (start,end) pairs over coordinates m*2^(17+3j)+d (j=0..4, several m, d in -2..2), "
         "around 0 and 2^29, both formats, one=True/False, plus seeded random pairs; Feature.bin and "
-        "_bin_from_dict on a sub-grid incl. '.' coordinates.  non-trivial/distinct = distinct "
+        "_bin_from_dict on a sub-grid incl. '.' coordinates; the bin of Features the library makes itself (interfeatures "
+        "gap, merge union, splice sites) with boundaries on the same grid.  non-trivial/distinct = distinct "
         "(fmt, one, result-kind, level of the returned bin or number of runs in the returned set)")
 EXHAUSTIVE = {"quick": False, "thorough": False}
 ASSUMPTIONS = ["Python >> on ints is floor division by a power of two (Z.shiftr)",
@@ -54,6 +55,18 @@ def gen_cases(rng, tier):
             if s is not None and e is not None:
                 # coordinates edited after construction: the bin written to the database (astuple) follows them
                 cases.append({"k": "store", "s0": rng.choice(sub), "e0": rng.choice(sub), "s": s, "e": e})
+    # Features the library makes itself: the gap between two neighbours (interfeatures) and the union of two overlapping
+    # ones (merge) - their .bin against bins(start, end) of the coordinates they come out with
+    pos = [x for x in sub if 10 <= x < (1 << 29) - 10]
+    for x in pos:
+        for y in pos:
+            if y - x >= 2:
+                cases.append({"k": "made", "how": "inter", "a": [max(1, x - 7), x], "b": [y, y + 9]})
+            if y - x >= 3:
+                cases.append({"k": "made", "how": "splice_left", "a": [max(1, x - 7), x], "b": [y, y + 9]})
+                cases.append({"k": "made", "how": "splice_right", "a": [max(1, x - 7), x], "b": [y, y + 9]})
+            if y >= x:
+                cases.append({"k": "made", "how": "merge", "a": [max(1, x - 3), max(x, y - 5)], "b": [max(x, y - 5), y]})
     return cases
 
 
@@ -62,6 +75,15 @@ def valid_case(c):
         return c.get("fmt") in ("gff", "bed") and isinstance(c.get("s"), int) and isinstance(c.get("e"), int)
     if c.get("k") == "store":
         return all(isinstance(c.get(x), int) for x in ("s0", "e0", "s", "e"))
+    if c.get("k") == "made":
+        try:
+            return c.get("how") in ("inter", "merge", "splice_left", "splice_right") and len(c["a"]) == 2 and len(c["b"]) == 2 \
+                and all(isinstance(v, int) and v >= 1 for v in c["a"] + c["b"]) \
+                and c["a"][0] <= c["a"][1] and c["b"][0] <= c["b"][1] and c["a"][0] <= c["b"][0] \
+                and (c["b"][0] - c["a"][1] >= {"inter": 2, "splice_left": 3, "splice_right": 3}[c["how"]] if c["how"] != "merge"
+                     else c["b"][0] <= c["a"][1] + 1)
+        except Exception:
+            return False
     return c.get("k") in ("feat", "dict")
 
 
@@ -74,6 +96,16 @@ def runs(ints):
         else:
             out.append([x, x])
     return out
+
+
+_DB = {}
+
+
+def _any_db():
+    import gffutils
+    if "db" not in _DB:
+        _DB["db"] = gffutils.create_db("chr1\tsrc\tgene\t1\t2\t.\t+\t.\tID=g\n", ":memory:", from_string=True)
+    return _DB["db"]
 
 
 def run_impl(case):
@@ -90,6 +122,29 @@ def run_impl(case):
         if isinstance(r, int) and not isinstance(r, bool):
             return {"t": "int", "v": r}
         return {"t": "err", "cls": "Other"}
+    if case["k"] == "made":
+        try:
+            db = _any_db()
+            fa = Feature(seqid="chr1", featuretype="exon", start=case["a"][0], end=case["a"][1], strand="+", id="a")
+            fb = Feature(seqid="chr1", featuretype="exon", start=case["b"][0], end=case["b"][1], strand="+", id="b")
+            if case["how"] == "inter":
+                out = list(db.interfeatures([fa, fb]))
+            elif case["how"].startswith("splice"):
+                import gffutils
+                hi = case["b"][1] + 10
+                text = ("chr1\ts\tgene\t1\t%d\t.\t+\t.\tID=g\nchr1\ts\tmRNA\t1\t%d\t.\t+\t.\tID=t;Parent=g\n" % (hi, hi)
+                        + "chr1\ts\texon\t%d\t%d\t.\t+\t.\tID=a;Parent=t\n" % tuple(case["a"])
+                        + "chr1\ts\texon\t%d\t%d\t.\t+\t.\tID=b;Parent=t\n" % tuple(case["b"]))
+                sites = list(gffutils.create_db(text, ":memory:", from_string=True).create_splice_sites())
+                out = sites[:1] if case["how"] == "splice_left" else sites[1:]
+            else:
+                out = [f for f in db.merge([fa, fb]) if f.id not in ("a", "b")]
+            if len(out) != 1:
+                return {"t": "err", "cls": "Other"}
+            f = out[0]
+            return {"t": "int" if isinstance(f.bin, int) else "none", "v": f.bin, "s": f.start, "e": f.end, "stored": f.astuple()[-1]}
+        except Exception as ex:
+            return {"t": "err", "cls": L.err_class(ex)}
     conv = lambda v: "." if v is None else v
     try:
         if case["k"] == "store":
@@ -127,6 +182,10 @@ def coq_case(c, o):
         return "CBins %s %s %s %s %s" % ("Gff" if c["fmt"] == "gff" else "Bed", L.z(c["s"]), L.z(c["e"]),
                                          L.b(c["one"]), coq_bres(o))
     impl = "(Some %s)" % L.z(o["v"]) if o["t"] == "int" else ("None" if o["t"] == "none" else "(Some (-99))")
+    if c["k"] == "made":
+        if "s" not in o:
+            return "CFeat None None (Some (-98))"
+        return "CFeat %s %s %s" % (L.opt(o["s"], L.z), L.opt(o["e"], L.z), impl)
     ctor = {"feat": "CFeat", "dict": "CDict", "store": "CDict"}[c["k"]]
     return "%s %s %s %s" % (ctor, L.opt(c["s"], L.z), L.opt(c["e"], L.z), impl)
 
@@ -147,14 +206,14 @@ def labels(c, o):
         yield "in-range" if inr else "out-of-range"
         yield "start<=end" if c["s"] <= c["e"] else "start>end"
     else:
-        yield "%s/%s" % (c["k"], o["t"])
+        yield "%s/%s" % (c["k"] + ("-" + c["how"] if c["k"] == "made" else ""), o["t"])
 
 
 def nontrivial_key(c, o):
     if c["k"] == "bins":
         return (c["fmt"], c["one"], o["t"], level_of(o["v"]) if o["t"] == "int" else len(o.get("runs", [])),
                 c["s"] <= c["e"])
-    return (c["k"], o["t"], level_of(o["v"]) if o["t"] == "int" else -1)
+    return (c["k"], c.get("how"), o["t"], level_of(o["v"]) if o["t"] == "int" else -1)
 
 
 def explain(c, o):
